@@ -48,14 +48,6 @@ func hostileInt64(t *rapid.T, around int64, label string) int64 {
 	return pick(t, []int64{math.MinInt64, -1, 0, 1, around - 1, around, around + 1, around + 2, around + 5, math.MaxInt64, math.MaxInt64 - 1}, label)
 }
 
-var hostileDocs = []string{
-	``, `{`, `[]`, `null`, `"x"`, `{}`, `{"gasPrice":"10"}`, `{"gasPrice":"-1"}`, `{"gasPrice":"1e9"}`, `{"gasPrice":10}`,
-	`{"maxValidatorCnt":"-1"}`, `{"maxValidatorCnt":"99999999999999999999999"}`, `{"minValidatorStake":"0x10"}`,
-	`{"slashRatio":"101","signedBlocksWindow":"0"}`, `{"rewardPerPower":""}`, `{"gasPrice":""}`, `{"minTrxGas":"18446744073709551616"}`,
-	`{"a":{"b":{"c":[1,2,{"d":null}]}}}`, `{"version":"2","maxValidatorCnt":"3"}`, `{"gasPrice":"10","x":""}`, `{"minValidatorStake":""}`,
-	"{\"gasPrice\":\"1\x00\"}", `{"gasPrice":"115792089237316195423570985008687907853269984665640564039457584007913129639936"}`,
-}
-
 func hostilePayload(t *rapid.T, typ int32, w *World) ctypes.ITrxPayload {
 	h := w.curH
 	switch typ {
@@ -265,6 +257,15 @@ func TestC09(t *testing.T) {
 	p.MaxTxs = 5
 	p.W["raw"] = 8
 	p.LiveInject = true
+	// a quarter of the histories: input that strikes later - hostile option documents inside well-formed proposals
+	// that are voted on and, when they pass validation, applied some blocks later
+	alt := govHeavyProfile()
+	alt.MinBlocks, alt.MaxBlocks = 10, 28
+	alt.GovFocus = ""
+	alt.HostileDocs, alt.HostileDocsWide = true, true
+	alt.W["raw"] = 4
+	alt.LiveInject = true
+	p.Alt, p.PAlt = alt, 25
 	runCheck(t, "C09", p, func(src Source, st *Stats) *Outcome {
 		gs, generating := src.(*GenSource)
 		reached := map[string]int{}
